@@ -75,8 +75,12 @@ def check(case: Dict[str, Any]) -> CaseInfo:
             if best <= 0:
                 classes.append("degenerate_all_zero_graph_skipped")  # no path of positive weight: outside the domain
                 break
+            want_w = {(u, v): float(g.edges[u, v]["weight"]) for u, v in g.edges}
             ok = hta_call("critical_path(reweighted)", lambda: g.critical_path())
             require(ok is True, "reweighted:succeeds", str(ok))
+            got_w = {(u, v): float(g.edges[u, v]["weight"]) for u, v in g.edges}
+            changed = {k: (want_w[k], got_w[k]) for k in want_w if want_w[k] != got_w[k]}
+            require(not changed, "reweighted:weights_preserved_by_recomputation", lambda: f"{list(changed.items())[:5]}")
             cur = check_path(g, False, f"reweighted{rnd}")
             classes.append("reweighted")
             if cur["path"] != prev["path"]:
@@ -100,6 +104,6 @@ def c09_case(draw):
 
 def campaigns(tier: str) -> List[Campaign]:
     return [Campaign("path", c09_case(), check, quick=480, thorough=11200, quick_shards=8,
-                     required_classes={"reweighted": 0.5, "reweighting_changes_path": 0.2, "path_through_device": 0.2,
+                     required_classes={"reweighted": 0.5, "reweighting_changes_path": 0.1, "path_through_device": 0.2,
                                        "path_host_only": 0.1},
                      sample_view=lambda c: {**view(c), "reweight": c["reweight"]})]
